@@ -61,6 +61,8 @@ func (s fsSpec) childName(i int) string {
 type fsCase struct {
 	Root   fsSpec `json:"root"`
 	Reject bool   `json:"reject"`
+	// PathForm: how the root path is spelled: "" | trailing-slash | dot-segments | via-dotdot
+	PathForm string `json:"path_form,omitempty"`
 }
 
 func (s fsSpec) String() string {
@@ -209,6 +211,27 @@ func (s fsSpec) materialise(path string, id *int) error {
 			b[i] = byte(i*7 + i/251)
 		}
 		return os.WriteFile(path, b, 0o644)
+	case "Fs":
+		// regular file with setuid, setgid and sticky bits: still a regular file
+		if err := os.WriteFile(path, []byte("special-bits"), 0o644); err != nil {
+			return err
+		}
+		return os.Chmod(path, 0o755|os.ModeSetuid|os.ModeSetgid|os.ModeSticky)
+	case "Fx":
+		// write-only / no-permission-bits file is unreadable for others, not for the importer running as owner... keep readable: 0400
+		if err := os.WriteFile(path, []byte("read-only"), 0o644); err != nil {
+			return err
+		}
+		return os.Chmod(path, 0o400)
+	case "Ds":
+		// directory with setgid and sticky bits (shared drop box, /tmp): still a directory
+		if err := os.Mkdir(path, 0o755); err != nil {
+			return err
+		}
+		if err := os.WriteFile(filepath.Join(path, "inside"), []byte("in a sticky dir"), 0o644); err != nil {
+			return err
+		}
+		return os.Chmod(path, 0o777|os.ModeSetgid|os.ModeSticky)
 	case "Z":
 		// two identical full chunks (a sparse / zero-filled file)
 		return os.WriteFile(path, make([]byte, 2*256*1024), 0o644)
@@ -372,7 +395,17 @@ func (c fsCase) run(base string, idx int, viol func(sig, detail string)) {
 	s := store.New()
 	var l ipld.Link
 	var berr error
-	if p, pv := core.Guard(func() { l, _, berr = builder.BuildUnixFSRecursive(root, s.LinkSystem()) }); p {
+	// the root path as given, with a trailing slash, or through "." segments
+	arg := root
+	switch c.PathForm {
+	case "trailing-slash":
+		arg = root + "/"
+	case "dot-segments":
+		arg = filepath.Dir(root) + "/./" + filepath.Base(root) + "/."
+	case "via-dotdot":
+		arg = root + "/../" + filepath.Base(root)
+	}
+	if p, pv := core.Guard(func() { l, _, berr = builder.BuildUnixFSRecursive(arg, s.LinkSystem()) }); p {
 		viol("panic import", fmt.Sprintf("%s: %v", c.Root, pv))
 		return
 	}
@@ -442,6 +475,9 @@ func runC18(r *core.Run) {
 		fsCase{Root: fsSpec{Kind: "D", LongNames: true, Children: []fsSpec{{Kind: "F"}, {Kind: "E"}, {Kind: "F"}, {Kind: "Lr"}}}},
 		fsCase{Root: fsSpec{Kind: "D", NGen: 1030, NameLen: 255, LongNames: true, Children: []fsSpec{{Kind: "F"}, {Kind: "F"}, {Kind: "E"}, {Kind: "F"}}}},
 		fsCase{Root: fsSpec{Kind: "D", NGen: 1100, NameLen: 254, LongNames: true, Children: []fsSpec{{Kind: "F"}, {Kind: "F"}}}},
+		// entries with special permission bits are ordinary files and directories
+		fsCase{Root: fsSpec{Kind: "Fs"}}, fsCase{Root: fsSpec{Kind: "Ds"}},
+		fsCase{Root: fsSpec{Kind: "D", Children: []fsSpec{{Kind: "Fs"}, {Kind: "Ds"}, {Kind: "Fx"}, {Kind: "D", Children: []fsSpec{{Kind: "Ds"}}}}}},
 		// files whose chunks repeat
 		fsCase{Root: fsSpec{Kind: "Z"}}, fsCase{Root: fsSpec{Kind: "ZA"}},
 		fsCase{Root: fsSpec{Kind: "D", Children: []fsSpec{{Kind: "Z"}, {Kind: "F"}, {Kind: "ZA"}}}},
@@ -450,6 +486,14 @@ func runC18(r *core.Run) {
 		fsCase{Root: fsSpec{Kind: "D", Children: []fsSpec{{Kind: "LL"}, {Kind: "F"}, {Kind: "LX"}, {Kind: "D", Children: []fsSpec{{Kind: "LL"}}}}}},
 		fsCase{Root: fsSpec{Kind: "D", Children: []fsSpec{{Kind: "M"}, {Kind: "E"}}}},
 	)
+	// the same trees through other spellings of the root path
+	for i, t := range trees {
+		if i%7 == 0 && t.Kind == "D" {
+			for _, pf := range []string{"trailing-slash", "dot-segments", "via-dotdot"} {
+				cases = append(cases, fsCase{Root: t, PathForm: pf})
+			}
+		}
+	}
 	base := scratchBase()
 	r.Set("scratch", base)
 	r.Set("trees", len(trees))
@@ -458,7 +502,7 @@ func runC18(r *core.Run) {
 		r.Evaluations.Add(1)
 		r.States.Add(1)
 		r.Transitions.Add(int64(c.Root.nodes()))
-		r.Distinct(fmt.Sprintf("%v/%s", c.Reject, c.Root))
+		r.Distinct(fmt.Sprintf("%v/%s/%s", c.Reject, c.Root, c.PathForm))
 		if i%401 == 0 {
 			r.Sample(map[string]any{"tree": c.Root.String(), "reject": c.Reject})
 		}
